@@ -113,10 +113,7 @@ the last level is a key of that dictionary or, if a scalar is found, equals its 
 theorem contains_spec (d : Slots) (s : String) (init : List String) (last : String) (hs : s ≠ "")
     (h : splitDots s = init ++ [last]) :
     contains names d s =
-      match valAt names (.dict d) init with
-      | none => false
-      | some (.dict l) => (lookupKey names l last).isSome
-      | some (.leaf a) => pyStr a == last := by
+      containsLast names last (valAt names (.dict d) init) := by
   rw [contains, if_neg hs, h, containsGo_spec]
 
 example : splitDots "a.b.1" = ["a", "b"] ++ ["1"] := by decide
@@ -478,26 +475,69 @@ theorem groupby_groups_perm (w : Nat) (t : Tree) (vs : List Item) :
   simp only [List.mem_eraseDups, decide_eq_true_eq]
   exact List.mem_map.2 ⟨v, hv, rfl⟩
 
+/-- **the documented default**: `GroupBy()` (`group_by=""`, `merge=""`) is accepted and puts all filled values
+(with contexts over the key alphabet) into one group, in arrival order -/
+theorem groupby_default_one_group (names : List String) (vs : List Item) (hne : vs ≠ [])
+    (hw : ∀ v ∈ vs, v.WF names.length) :
+    ∃ T, groupByInit names (.str "") (.str "") = .ok T ∧
+      gbCompute (vs.foldl (gbFill names.length T) []) = [vs] := by
+  refine ⟨.node false [] [], by rfl, ?_⟩
+  rw [(groupby_partition names.length _ vs).1]
+  have hkey : ∀ v ∈ vs, groupKey names.length (.node false [] []) v = List.replicate names.length none := by
+    intro v hv
+    have := hw v hv
+    rw [Item.WF, WFV_dict] at this
+    rw [groupKey, getL_exclude_all, this.1]
+  have hmap : vs.map (groupKey names.length (.node false [] [])) = List.replicate vs.length (List.replicate names.length none) := by
+    rw [List.eq_replicate_iff]
+    refine ⟨by simp, ?_⟩
+    intro k hk
+    obtain ⟨v, hv, rfl⟩ := List.mem_map.1 hk
+    exact hkey v hv
+  obtain ⟨n, hn⟩ : ∃ n, vs.length = n + 1 := by
+    cases vs with
+    | nil => exact absurd rfl hne
+    | cons a t => exact ⟨t.length, rfl⟩
+  rw [hmap, hn, eraseDups_replicate]
+  simp only [List.map_cons, List.map_nil, List.cons.injEq, and_true]
+  rw [List.filter_eq_self]
+  intro v hv
+  simp [hkey v hv]
+
+example : Item.WF 2 ⟨.int 0, none⟩ ∧ Item.WF 2 ⟨.int 1, some [some (.leaf (.int 5)), none]⟩ :=
+  ⟨Item.wf_bare 2 _, by simp [Item.WF, Item.context, WFV, WFL]⟩
+
+theorem groupByInit_eq (names : List String) (g m : StrOrTuple) :
+    groupByInit names g m = makeIncludeExcludeTree names (gbArgs g m).1 (gbArgs g m).2 := by
+  unfold groupByInit gbArgs
+  split <;> rfl
+
 /-- **the property's last sentence, end to end** — for `GroupBy(group_by, merge)` accepted at construction,
-with no key path listed in both arguments: two values (with contexts over the key alphabet `names`) have
-the same group key — i.e. by `groupby_partition` share a group — exactly when their contexts agree on
-every key path whose longest prefix listed in `group_by` or `merge` is a `group_by` entry. -/
-theorem groupby_share_iff_agree (names : List String) (g m : StrOrTuple) (T : Tree)
-    (h : groupByInit names g m = .ok T) :
-    ∃ I E d, (Disjoint I E → ∀ v1 v2 : Item, v1.WF names.length → v2.WF names.length →
-      (groupKey names.length T v1 = groupKey names.length T v2 ↔
-        AgreeOn (polarity I E d) (.dict (v1.context names.length)) (.dict (v2.context names.length)))) := by
-  have hex : ∃ inc exc, makeIncludeExcludeTree names inc exc = .ok T := by
-    unfold groupByInit at h
-    split at h
-    · exact ⟨_, _, h⟩
-    · exact ⟨_, _, h⟩
-  obtain ⟨inc, exc, h'⟩ := hex
-  obtain ⟨I, E, _, _, _, hget⟩ := make_include_exclude_tree_get names inc exc T h'
-  refine ⟨I, E, inc.contains "", fun hd v1 v2 w1 w2 => ?_⟩
+`I`, `E` the key paths listed in `group_by`, `merge` (the root `""` apart), no key path listed in both: two
+values (with contexts over the key alphabet `names`) have the same group key — i.e., by
+`groupby_partition`, share a group — exactly when their contexts agree on every key path whose longest
+prefix listed in `group_by` or `merge` is a `group_by` entry. -/
+theorem groupby_share_iff_agree (names : List String) (g m : StrOrTuple) (T : Tree) (I E : List Path)
+    (h : groupByInit names g m = .ok T)
+    (hI : splitKeys names (gbArgs g m).1 = some I) (hE : splitKeys names (gbArgs g m).2 = some E)
+    (hd : Disjoint I E) (v1 v2 : Item) (w1 : v1.WF names.length) (w2 : v2.WF names.length) :
+    groupKey names.length T v1 = groupKey names.length T v2 ↔
+      AgreeOn (polarity I E ((gbArgs g m).1.contains "")) (.dict (v1.context names.length))
+        (.dict (v2.context names.length)) := by
+  rw [groupByInit_eq] at h
+  obtain ⟨I', E', hI', hE', _, hget⟩ := make_include_exclude_tree_get names _ _ T h
+  rw [hI] at hI'; rw [hE] at hE'
+  cases hI'; cases hE'
   unfold groupKey
   rw [hget hd, hget hd]
   exact same_key_iff_agree names.length _ _ _ w1 w2
+
+/-- `GroupBy("a.b", "")` over the keys `a`, `b`: accepted; `I = [a.b]`, `E = []`, root in `merge` -/
+example : groupByInit ["a", "b"] (.str "a.b") (.str "") = .ok (.node false [] [(0, .node false [1] [])]) := by rfl
+
+example : splitKeys ["a", "b"] (gbArgs (.str "a.b") (.str "")).1 = some [[0, 1]] ∧
+    splitKeys ["a", "b"] (gbArgs (.str "a.b") (.str "")).2 = some [] ∧
+    (gbArgs (.str "a.b") (.str "")).1.contains "" = false := by decide
 
 /-- `GroupBy("a.b", "")`-like: five values; keys 1, 2, 1, none, 2 -/
 example :
